@@ -43,8 +43,7 @@ func ParseDeploymentPath(parts []string) (DeploymentID, error) {
 		return DeploymentID{}, ErrInvalidIDPath
 	}
 
-	owner, err := sdk.AccAddressFromBech32(parts[0])
-	if err != nil {
+	if _, err := sdk.AccAddressFromBech32(parts[0]); err != nil {
 		return DeploymentID{}, err
 	}
 
@@ -53,8 +52,10 @@ func ParseDeploymentPath(parts []string) (DeploymentID, error) {
 		return DeploymentID{}, err
 	}
 
+	// keep the owner as written: records are keyed by the address string, and a
+	// bech32 address may be written in upper case
 	return DeploymentID{
-		Owner: owner.String(),
+		Owner: parts[0],
 		DSeq:  dseq,
 	}, nil
 }
